@@ -263,3 +263,11 @@ structure FloatOps where
   div : Num → Num → Num
   abs : Num → Num
 end Py
+
+namespace Py
+/-- what `get_pool_executor` hands back: which kind of pool, with how many workers (`None` = the library default) -/
+inductive PoolKind where
+  | thread (workers : Option Int)
+  | process (workers : Option Int)
+deriving DecidableEq, Repr
+end Py
